@@ -1,6 +1,6 @@
 """Runs in a fresh interpreter (its own PYTHONHASHSEED): parses a schema, runs one generator, prints {path: contents} as JSON.
 argv: <schema file> <generator> <outdir> [history]   history = 'none' | 'busy' (parse/generate other things first) | 'twice' |
-'after:<other schema file>' (parse that schema - same type names, other definitions - and run every generator on it first)"""
+'others-first' (the other generators run first on the same parsed object) | 'after:<other schema file>' (parse that schema - same type names, other definitions - and run every generator on it first)"""
 import contextlib
 import io
 import json
@@ -38,6 +38,14 @@ def main():
             except Exception:
                 pass
     fcp = get_fcp(schema).unwrap()
+    if history == "others-first":
+        # every other generator runs first on the SAME parsed schema object (a generator must not change its input)
+        for g in ("can_c", "dbc", "cpp", "nop"):
+            if g != name:
+                try:
+                    generate(g, fcp, outdir + "_" + g)
+                except Exception:
+                    pass
     try:
         out = generate(name, fcp, outdir)
         if history == "twice":
